@@ -1,2 +1,70 @@
-(* C07 - theorems follow in this commit series *)
-From TW Require Import Bytes.
+(* C07 - components: own arguments, own slots, every use independent.
+   Proved on the loader + evaluator model: every use of a component is resolved on its own (the block
+   attached to a use is a function of the component file and THAT use's slots; two uses with the same
+   slots get the same block); a passed body goes to the first top-level placeholder of its name and
+   nothing else changes; an undeclared slot, a slot passed twice and a missing component file are load
+   errors naming the component; a use evaluates its arguments in the caller's scope, binds them in a
+   fresh scope on top of it and renders the component's program there; a placeholder shows the passed
+   body or nothing.  The end-to-end output of pages with several uses (inside loops and conditionals)
+   is decided on generated trees against the per-use substitution oracle. *)
+From Coq Require Import String.
+From TW Require Import Bytes GenToken Lexer Ast Parser Values Builtins Eval Render Api Layouts.
+Open Scope N_scope.
+
+Theorem C07_uses_are_resolved_independently fs cfg page_abs c rest :
+  resolve_components fs cfg page_abs (c :: rest) =
+  (let? a := resolve_components fs cfg page_abs [c] in
+   let? b := resolve_components fs cfg page_abs rest in LOk (a ++ b)).
+Proof. exact (component_uses_are_independent fs cfg page_abs c rest). Qed.
+Print Assumptions C07_uses_are_resolved_independently.
+
+Theorem C07_same_use_same_block fs cfg page_abs cid1 cid2 cl name slots r1 r2 :
+  resolve_components fs cfg page_abs [(cid1, cl, name, slots)] = LOk r1 ->
+  resolve_components fs cfg page_abs [(cid2, cl, name, slots)] = LOk r2 ->
+  map snd r1 = map snd r2.
+Proof. exact (same_use_same_block fs cfg page_abs cid1 cid2 cl name slots r1 r2). Qed.
+Print Assumptions C07_same_use_same_block.
+
+Theorem C07_slot_body_goes_to_its_placeholder ss n b ss' :
+  set_slot_body ss n b = Some ss' ->
+  exists pre ln old post, ss = pre ++ SSlot ln n old :: post /\ ss' = pre ++ SSlot ln n (Some b) :: post.
+Proof. exact (slot_body_goes_to_its_placeholder ss n b ss'). Qed.
+Print Assumptions C07_slot_body_goes_to_its_placeholder.
+
+Theorem C07_undeclared_slot_is_a_load_error page_abs cline name sln sn body cprog cl :
+  sn <> [] -> set_slot_body (p_stmts cprog) sn body = None ->
+  apply_component page_abs cline name [(sln, sn, body)] cprog cl =
+  LErr (mkErr cl page_abs (fmt ErrSlotNotDefined [sn; name])).
+Proof. exact (undeclared_slot_is_a_load_error page_abs cline name sln sn body cprog cl). Qed.
+Print Assumptions C07_undeclared_slot_is_a_load_error.
+
+Theorem C07_slot_passed_twice_is_a_load_error page_abs cline name l1 l2 sn b1 b2 cprog cl :
+  name <> [] ->
+  apply_component page_abs cline name [(l1, sn, b1); (l2, sn, b2)] cprog cl =
+  LErr (mkErr cl page_abs (fmt ErrDuplicateSlotUsage [sn; nat_to_dec 2; name])).
+Proof. exact (duplicate_slot_is_a_load_error page_abs cline name l1 l2 sn b1 b2 cprog cl). Qed.
+Print Assumptions C07_slot_passed_twice_is_a_load_error.
+
+Theorem C07_missing_component_is_a_load_error fs cfg page_abs cid cline name slots rest msg :
+  parse_file fs (rel_of cfg name) = LOk (PReadErr true msg) ->
+  resolve_components fs cfg page_abs ((cid, cline, name, slots) :: rest) =
+  LErr (mkErr cline page_abs (fmt ErrUndefinedComponent [name])).
+Proof. exact (missing_component_is_a_load_error fs cfg page_abs cid cline name slots rest msg). Qed.
+Print Assumptions C07_missing_component_is_a_load_error.
+
+Theorem C07_a_use_evaluates_its_arguments_at_the_place_of_use cx f en ln cid name l1 pairs slots ss :
+  eval_stmt cx (S f) en (SComponent ln cid name (Some (EObj l1 pairs)) slots (Some ss)) =
+  (let! kvs := eval_pairs cx f en (asort pairs) in
+   let en1 := fold_left (fun e kv => env_set_ignore e (fst kv) (snd kv)) kvs ([] :: en) in
+   let! r := eval_program cx f en1 ss [] in
+   Ok (VComponent (VHtml (fst r)), tl (snd r))).
+Proof. exact (component_use_renders cx f en ln cid name l1 pairs slots ss). Qed.
+Print Assumptions C07_a_use_evaluates_its_arguments_at_the_place_of_use.
+
+Theorem C07_placeholder_shows_the_passed_body cx f en ln n b :
+  eval_stmt cx (S f) en (SSlot ln n (Some b)) =
+  (let! r := eval_block cx f en b [] in Ok (VSlot (fst r), snd r)) /\
+  eval_stmt cx (S f) en (SSlot ln n None) = Ok (VSlot VNil, en) /\
+  (forall v, value_string (VSlot v) = value_string v) /\ value_string (VSlot VNil) = Some [].
+Proof. exact (slot_shows_the_passed_body cx f en ln n b). Qed.
+Print Assumptions C07_placeholder_shows_the_passed_body.
